@@ -86,9 +86,19 @@ func ruleTDELROWS(p *Program, r *Reporter) {
 						if !isRet || isRecoverBlock(b3) {
 							continue
 						}
-						if retValue(ret, 0) == rows && !header.Dominates(b3) {
+						// any successful return of a row set (the listed rows or another map,
+						// e.g. one served from the transaction cache) must come after the filter
+						success := false
+						if len(ret.Results) >= 2 {
+							if k, isC := retValue(ret, len(ret.Results)-1).(*ssa.Const); isC && k.IsNil() {
+								if k0, isC0 := retValue(ret, 0).(*ssa.Const); !(isC0 && k0.IsNil()) {
+									success = true
+								}
+							}
+						}
+						if (retValue(ret, 0) == rows || success) && !header.Dominates(b3) {
 							ok2 = false
-							why = "a return of the rows read from the database is not preceded by the DeletedRows filter"
+							why = "a successful return of rows is not preceded by the DeletedRows filter: a row deleted earlier in the transaction is still handed to later operations"
 						}
 					}
 					if ok2 {
